@@ -24,6 +24,7 @@ import ast
 from sa import asdl
 from sa import core
 from sa import fieldtypes
+from sa import pat
 from sa import pycfg
 from sa import tpl
 
@@ -261,11 +262,13 @@ def check(model, rep, tier):
             'a lambda body is the exit of its own graph', line=pfd.node.lineno
             if pfd else None)
   pes = cls.methods.get('_process_exit_statement')
-  src = core.norm(pes.node)
-  ok = 'self.builder.add_exit_node(node, try_node, guards)' in src and \
-      'try_node, guards = self._get_enclosing_finally_scopes(exits_nodes_of_type)' \
-      in src and 'self.builder.connect_raise_node(node, except_guards)' in src and \
-      'except_guards = self._get_enclosing_except_scopes(exits_nodes_of_type)' in src
+  pp = pes.params()
+  n1, b1 = pat.first(pes.node, '_T_, _G_ = self._get_enclosing_finally_scopes(%s)' % pp[1])
+  ok = b1 is not None and pat.has(
+      pes.node, '_N_ = self.builder.add_exit_node(%s, _T_, _G_)' % pp[0], b1)
+  n2, b2 = pat.first(pes.node, '_E_ = self._get_enclosing_except_scopes(%s)' % pp[1])
+  ok = ok and b2 is not None and pat.has(
+      pes.node, 'self.builder.connect_raise_node(_N_, _E_)', b2)
   rep.check(ok, 'CFG-JUMP', '%s:exit-node-wiring' % pes.site,
             'exit statements must be added with the enclosing finally guards; '
             'raises additionally with the enclosing handlers', line=pes.node.lineno)
@@ -280,6 +283,8 @@ def check(model, rep, tier):
       exits = [n for n in ast.walk(lp) if isinstance(n, (ast.Break, ast.Return,
                                                          ast.Continue))]
       guards = []
+      lv = core.norm(lp.target)
+      stop_p = f.params()[0]
       for x in exits:
         gd = None
         for i in ast.walk(lp):
@@ -287,7 +292,7 @@ def check(model, rep, tier):
             gd = core.norm(i.test)
         guards.append(gd)
       facts = {'early_exits': guards}
-      ok = guards == ['isinstance(node, stop_at)']
+      ok = guards == ['isinstance(%s, %s)' % (lv, stop_p)]
       # collection is unconditional apart from the Try test
       coll = [n for n in ast.walk(lp) if isinstance(n, ast.Call) and isinstance(
           n.func, ast.Attribute) and n.func.attr in ('append', 'extend')]
@@ -298,9 +303,9 @@ def check(model, rep, tier):
             cg.append(core.norm(i.test))
       facts['collect_guards'] = cg
       want = {'_get_enclosing_finally_scopes':
-              ['isinstance(node, ast.Try) and node.finalbody'],
+              ['isinstance(%s, ast.Try) and %s.finalbody' % (lv, lv)],
               '_get_enclosing_except_scopes':
-              ['isinstance(node, ast.Try) and node.handlers']}[fname]
+              ['isinstance(%s, ast.Try) and %s.handlers' % (lv, lv)]}[fname]
       ok = ok and cg == want
     rep.check(ok, 'CFG-JUMP', '%s:collects-all-enclosing' % f.site,
               'guards must be collected from *every* enclosing try up to the '
@@ -332,8 +337,10 @@ def check(model, rep, tier):
             witness='loop body ending in try/finally whose try has a break '
             'under an if')
   aj = gb.methods.get('_add_jump_node')
-  src = core.norm(aj.node)
-  ok = 'self.leaves = set()' in src and 'self.finally_sections[node] = guards' in src
+  ap = aj.params()
+  n1, b1 = pat.first(aj.node, '_N_ = self._add_new_node(%s)' % ap[0])
+  ok = b1 is not None and pat.has(aj.node, 'self.leaves = set()') and pat.has(
+      aj.node, 'self.finally_sections[_N_] = %s' % ap[1], b1)
   rep.check(ok, 'CFG-LEAVES', '%s:jump-empties-leaves' % aj.site,
             'a jump node must empty the leaf set (nothing follows it lexically) '
             'and remember its finally guards', line=aj.node.lineno)
@@ -392,11 +399,21 @@ def mirror_rule(model, rep, rule):
             'edges are written outside _connect_nodes / freeze',
             {'writers': bad})
   bld = gb.methods.get('build')
-  src = core.norm(bld.node)
-  ok = 'for first, second in self.forward_edges' in src and \
-      'stmts_exited = self.owners[first] - self.owners[second]' in src and \
-      'stmts_entered = self.owners[second] - self.owners[first]' in src and \
-      'stmt_next[stmt].add(second)' in src and 'stmt_prev[stmt].add(first)' in src
+  ok = False
+  for lp in [n for n in ast.walk(bld.node) if isinstance(n, ast.For) and
+             core.norm(n.iter) == 'self.forward_edges' and isinstance(n.target, ast.Tuple)
+             and len(n.target.elts) == 2]:
+    a, b = [core.norm(e) for e in lp.target.elts]
+    n1, b1 = pat.first(lp, '_X_ = self.owners[%s] - self.owners[%s]' % (a, b))
+    n2, b2 = pat.first(lp, '_Y_ = self.owners[%s] - self.owners[%s]' % (b, a))
+    if b1 and b2:
+      okx = any(isinstance(l, ast.For) and core.norm(l.iter) == b1['_X_'] and
+                pat.has(l, '_NX_[%s].add(%s)' % (core.norm(l.target), b))
+                for l in ast.walk(lp))
+      oky = any(isinstance(l, ast.For) and core.norm(l.iter) == b2['_Y_'] and
+                pat.has(l, '_PV_[%s].add(%s)' % (core.norm(l.target), a))
+                for l in ast.walk(lp))
+      ok = okx and oky
   rep.check(ok, rule, '%s:statement-edges-from-forward-edges' % bld.site,
             'stmt_next / stmt_prev must be exactly the forward edges that leave '
             '/ enter a statement\'s owned nodes', line=bld.node.lineno)
